@@ -43,6 +43,16 @@ def call(I, name, args, e):
         if m.group(2) == 'new': return args[0]
         args[0].place.set(args[1]); return UNIT
 
+    # ---------------- mem::replace / swap / take on places
+    if n == 'core::mem::replace' and isinstance(args[0], RefV):
+        old = args[0].place.get(); args[0].place.set(args[1]); I.log.append(('mutate', n, e.get('sp'))); return old
+    if n == 'core::mem::swap' and isinstance(args[0], RefV) and isinstance(args[1], RefV):
+        x, y = args[0].place.get(), args[1].place.get(); args[0].place.set(y); args[1].place.set(x); I.log.append(('mutate', n, e.get('sp'))); return UNIT
+    if n == 'core::mem::take' and isinstance(args[0], RefV):
+        old = args[0].place.get(); dv = default_value(I, ty, e)
+        if isinstance(dv, Top): return dv
+        args[0].place.set(dv); I.log.append(('mutate', n, e.get('sp'))); return old
+
     # ---------------- size_of / default
     if n == 'core::mem::size_of':
         sz = e['generic_sizes'][0]
@@ -190,7 +200,6 @@ def call(I, name, args, e):
             s = a0.seq
             nm = s.name or I.fresh_name('str')
             return SeqV('char', [('sym', ('a', nm + '.chars'))], name=nm + '.chars')
-        return I.top('collect', e)
     if n == 'core::iter::Iterator::nth':
         if isinstance(a0, IterV) and a0.kind == 'chars' and is_term(args[1]):
             s = a0.seq
@@ -207,7 +216,11 @@ def call(I, name, args, e):
         base = s.seq if isinstance(s, SliceV) else s
         lo = s.lo if isinstance(s, SliceV) else ZERO
         nm = (base.name or 'str') + '.split(%s,from=%s)' % (show(args[1]), show(lo))
-        return IterV(SeqV('&str', [('sym', ('a', nm))], name=nm), False, kind='split')
+        hi = s.hi if isinstance(s, SliceV) and s.hi is not None else ('len', ('a', base.name or 'str'))
+        if hi != seqlen(base.segs) and hi != ('len', ('a', base.name or 'str')): return I.top('split of a proper prefix of a string', e)
+        # the parts are an uninterpreted function of (string, separator, start offset)
+        st_ = ('call', 'split', ('a', base.name or 'str'), args[1] if is_term(args[1]) else ('a', '?'), lo)
+        return IterV(SeqV('&str', [('sym', st_)], name=nm), False, kind='split')
 
     # ---------------- small std helpers that refactors like to use
     if n.endswith('as core::iter::Iterator>::map') or n == 'core::iter::Iterator::map':
@@ -224,6 +237,30 @@ def call(I, name, args, e):
         I.iterate(args[0], step, e)
         del I.frame().vars['$sum%d' % id(acc)]
         return acc.v
+    if n.endswith('as core::iter::Iterator>::collect') or n == 'core::iter::Iterator::collect':
+        base_, ga_ = split_generics(ty)
+        if base_ == 'alloc::vec::Vec' and ga_ and isinstance(deref(args[0]), IterV):
+            out = SeqV(ga_[0], [])
+            cell = Cell(out); key_ = '$collect%d' % id(cell)
+            I.frame().vars[key_] = cell
+            def step(el):
+                v = el
+                if out.is_bytes() or int_bits(out.elem):
+                    v = deref(el)
+                    if not is_term(v):
+                        I.top('collect of non-scalar into Vec<%s>' % out.elem, e); return
+                out.segs.append(('int', v, 1) if out.is_bytes() else ('elem', v))
+            I.iterate(args[0], step, e)
+            del I.frame().vars[key_]
+            I.log.append(('mutate', n, e.get('sp')))
+            return cell.v
+        return I.top('collect into %s' % ty, e)
+    if n in ('core::slice::<impl [T]>::to_vec', 'alloc::slice::<impl [T]>::to_vec', 'alloc::slice::<impl [T]>::to_vec_in'):
+        if isinstance(a0, SeqV) and not a0.stores: return fcopy(a0)
+        if isinstance(a0, SliceV):
+            r = I.slice_segs(a0)
+            if r is not None: return SeqV(a0.seq.elem, list(r))
+        return I.top('to_vec of %r' % (a0,), e)
     if re.match(r'^core::num::<impl (u8|u16|u32|u64|usize)>::(leading_zeros|ilog2)$', n):
         # bit length of the operand: leading_zeros(x) = BITS - bitlen(x);  ilog2(x) = bitlen(x) - 1
         bl = ('call', 'bitlen', a0); sym.CALL_RANGE[bl] = (0, 64)
